@@ -56,6 +56,27 @@ pub fn run(cx: &mut Ctx) {
     }
     cx.exhaustive_blocks.push(format!("all element-wise programs of <= {depth} steps from a 12-step menu over a 5-row keyed input x seq + par 1..4 ({n} programs)"));
 
+    // LONG value-only runs (34..64 steps in one fused block, beyond the insertion-sort regime of std's sorts): the
+    // planner's cost sort must keep equal-cost steps in written order. Half of the programs interleave always-true
+    // filters (cost 1) with non-commuting map_values (cost 3): a STABLE cost sort is then invisible in the result, so
+    // the reference must be met exactly; the other half uses real filters (the listed reorder finding may be active —
+    // there the model, which contains the stable sort, must predict the real answer).
+    for i in 0..cx.budget(12, 200) {
+        let len = *cx.rng.pick(&[34usize, 40, 48, 64]);
+        let inert = i % 2 == 0;
+        let mut muls = 0;
+        let steps: Vec<Step> = (0..len).map(|_| match cx.rng.below(4) {
+            0 => Step::FilterValues(if inert { Pred::Tt } else { cx.rng.pick(&[Pred::Tt, Pred::Even, Pred::Ge(-50)]).clone() }),
+            1 => Step::MapValues(Fn_::Neg),
+            2 if muls < 8 => { muls += 1; Step::MapValues(Fn_::Mul(2)) }
+            _ => Step::MapValues(Fn_::Add(cx.rng.range(-3, 4))),
+        }).collect();
+        let src: Vec<V> = (0..1 + cx.rng.below(6)).map(|j| V::pair(V::I(j as i64 % 2), V::I(cx.rng.range(-4, 9)))).collect();
+        let p = Prog { shape: Shape::KV, src, steps };
+        cx.count(if inert { "program:long-value-only-run(stable-sort-inert)" } else { "program:long-value-only-run" });
+        check_prog(cx, &p, &[Mode::Seq, Mode::Par(2)], &o);
+    }
+
     // random element-wise programs; chunk functions that look across their slice only sequentially
     let rounds = cx.budget(500, 12000);
     for i in 0..rounds {
